@@ -28,11 +28,30 @@ impl Prop for P {
             assumptions: &["reference inflater (self-checked)", "'legal' = any sequence of the 8 flush modes in which Finish, once issued, is repeated until the stream ends"],
             dbg: true,
             simd: false,
-            exhaustive: None,
+            exhaustive: Some("level-1 fast path: every alignment 0..4096 of the look-ahead chunking against the LZ-code-buffer fill point (70 KB incompressible input after Z zero bytes, small output buffers)"),
         }
     }
     fn cases(tier: Tier) -> u64 {
         tier.pick(50_000, 400_000)
+    }
+    fn fixed_cases(tier: Tier) -> Vec<Case> {
+        // Exhaustive sweep of the alignment between the fast path's 4096-byte look-ahead chunks and the
+        // point where the 64 KiB LZ code buffer fills: Z zero bytes followed by ~70 KB of incompressible
+        // data, every Z in 0..4096, small output buffers (so the block cannot be delivered at once).
+        use crate::gen::config::Ctor;
+        use crate::gen::data::Seg;
+        let step = tier.pick(1, 1);
+        let mut v = Vec::new();
+        let mut z = 0u32;
+        while z < 4096 {
+            let strategy = if z % 2 == 0 { 0 } else { 4 };
+            let cfg = Config { ctor: Ctor::Flags, level: 1, strategy, zlib: true, wbits: 15 };
+            let data = Recipe { segs: vec![Seg::Run { byte: 0, n: z }, Seg::Random { n: 70_000, seed: 0x5eed ^ z as u64 }], twice: false };
+            let out = [997u32, 64, 4096][(z % 3) as usize];
+            v.push(Case { data, cfg, sched: Schedule { steps: vec![], finish_out: vec![out] } });
+            z += step;
+        }
+        v
     }
     fn strategy(tier: Tier) -> BoxedStrategy<Case> {
         let data = match tier {
@@ -53,6 +72,15 @@ impl Prop for P {
             vensure!(r.out == x, "c02:decodes-to-different-bytes", "[{driver:?}] output decodes to {} bytes, input was {} ({:?}); first difference at {}", r.out.len(), x.len(), case.cfg, r.out.iter().zip(x.iter()).take_while(|(a, b)| a == b).count());
             vensure!(r.consumed == run.out.len(), "c02:not-one-stream", "[{driver:?}] {} bytes emitted but the stream ends after {}", run.out.len(), r.consumed);
             if driver == Driver::Buf {
+                for b in &r.blocks {
+                    // LZ code bytes of the block: 1 per literal, 3 per match, 1 flag byte per 8 tokens
+                    let codes = b.n_lit + 3 * b.n_match + (b.n_lit + b.n_match) / 8;
+                    if codes >= 65_500 {
+                        cx.class("block:ended-because-LZ-code-buffer-was-full");
+                    } else if b.out_len > 31 * 1024 && b.btype != 0 {
+                        cx.class("block:>31K-not-stored");
+                    }
+                }
                 if run.suspended || run.mid_flush || run.split_input {
                     cx.nontrivial();
                 }
